@@ -252,7 +252,123 @@ def c13(ctx):
     ctx.floor("histogram instantiations analysed (merge/views)", n, 6)
 
 
+def c14(ctx):
+    import minmax_rules as MM
+    n = 0
+    for cfg in ("B", "A"):
+        db = ctx.db(cfg)
+        for t, is_min in (("minmax::Min", True), ("minmax::Max", False)):
+            e = Est(db, t)
+            if not e.exists():
+                continue
+            n += 1
+            MM.r_minmax(ctx, db, e, is_min)
+            if cfg == "B":
+                R.r_ident_merge(ctx, db, e, assume=R.nonnan_state)
+                R.r_default_is_new(ctx, db, e)
+                import forward_rules as FW
+                FW.r_forward_ingest(ctx, db, e)
+    ctx.floor("Min/Max types analysed", n, 4)
+
+
+CAT_SPECS = {
+    "cat::MinMax": [("min", "minmax::Min", ["min"]), ("max", "minmax::Max", ["max"])],
+    "cat::OnlyMean": [("mean", "moments::Mean", ["mean"])],
+    "cat::MeanVar": [("var", "moments::Variance", ["mean", "sample_variance", "population_variance"])],
+    "cat::Three": [("lo", "minmax::Min", ["min"]), ("v", "moments::Variance", ["mean", "sample_variance"]), ("hi", "minmax::Max", ["max"])],
+    "cat::WithQuantile": [("quantile", "quantile::Quantile", ["quantile"]), ("mean", "moments::Mean", ["mean"])],
+    "cat::Shape": [("skewness", "moments::Skewness", ["skewness"]), ("kurtosis", "moments::Kurtosis", ["kurtosis"])],
+    "cat::Four": [("lo", "minmax::Min", ["min"]), ("hi", "minmax::Max", ["max"]), ("k", "moments::Kurtosis", ["mean", "kurtosis", "skewness"]),
+                  ("q", "quantile::Quantile", ["quantile"])],
+}
+INGEST_TYPES = ["moments::Mean", "moments::Variance", "moments::Skewness", "moments::Kurtosis", "Moments4", "m5::M5", "m6::M6",
+                "minmax::Min", "minmax::Max", "weighted_mean::WeightedMean", "weighted_mean::WeightedMeanWithError",
+                "covariance::Covariance"]
+RAYON_TYPES = ["moments::Mean", "moments::Variance", "moments::Skewness", "moments::Kurtosis", "Moments4", "minmax::Min", "minmax::Max",
+               "m4::M4", "m5::M5", "m6::M6", "m8::M8", "m10::M10"]
+SERDE_TYPES = ["moments::Mean", "moments::Variance", "moments::Skewness", "moments::Kurtosis", "Moments4", "minmax::Min", "minmax::Max",
+               "quantile::Quantile", "weighted_mean::WeightedMean", "weighted_mean::WeightedMeanWithError", "covariance::Covariance",
+               "hist::Histogram", "m4::M4", "m5::M5", "m6::M6", "m8::M8", "m10::M10", "h1::Histogram", "h2::Histogram", "h3::Histogram",
+               "h4::Histogram", "h10::Histogram", "h100::Histogram"]
+
+
+def c20(ctx):
+    import forward_rules as FW
+    db = ctx.db("B")
+    n_ing = n_est = n_cat = 0
+    for t in INGEST_TYPES:
+        e = Est(db, t)
+        if not e.exists():
+            continue
+        n_ing += FW.r_forward_ingest(ctx, db, e, max_items=2 if ctx.tier == "quick" else 3,
+                                     state_assume=R.nonnan_state if t.startswith("minmax") else None)
+        n_est += FW.r_estimate_headline(ctx, db, e, assume=R.nonnan_state if t.startswith("minmax") else None)
+        R.r_default_is_new(ctx, db, e)
+    q = Est(db, "quantile::Quantile")
+    if q.exists():
+        import fnode as F
+        n_est += FW.r_estimate_headline(ctx, db, q)
+        R.r_default_is_new(ctx, db, q, new_args=lambda m: [F.lit(0.5)])
+    for path, spec in CAT_SPECS.items():
+        if ctx.tier == "quick" and path in ("cat::Four", "cat::WithQuantile"):
+            # Quantile::add has thousands of abstract paths; the two Quantile-bearing shapes run in the thorough tier
+            continue
+        n_cat += FW.r_concatenate(ctx, db, path, spec)
+        e = Est(db, path)
+        if e.exists() and path not in ("cat::Four", "cat::WithQuantile"):
+            n_ing += FW.r_forward_ingest(ctx, db, e, max_items=2)
+    ctx.floor("FromIterator/Extend impls analysed", n_ing, 40)
+    ctx.floor("Estimate::estimate impls analysed", n_est, 7)
+    ctx.floor("concatenate! obligations", n_cat, 20)
+
+
+def c19(ctx):
+    import forward_rules as FW
+    db = ctx.db("A")
+    n = 0
+    for t in RAYON_TYPES:
+        e = Est(db, t)
+        if not e.exists():
+            continue
+        if ctx.tier == "quick" and t in ("m8::M8", "m10::M10", "m4::M4"):
+            continue
+        n += FW.r_rayon(ctx, db, e, assume=R.nonnan_state if t.startswith("minmax") else None)
+        # preconditions rayon's fold/reduce contract needs: exact identity and the merge laws
+        R.r_ident_merge(ctx, db, e, assume=R.nonnan_state if t.startswith("minmax") else None)
+        if not t.startswith("minmax"):
+            R.laws_add_merge(ctx, db, e, ("L2", "L3", "L4"))
+            R.r_count(ctx, db, e, "A")
+    ctx.floor("from_par_iter impls analysed", n, 18)
+
+
+def c18(ctx):
+    import forward_rules as FW
+    db = ctx.db("A")
+    n = 0
+    for t in SERDE_TYPES:
+        n += FW.r_serde(ctx, db, t)
+    ctx.floor("state structs with serde impls analysed", n, 20)
+    seen = sum(1 for a in db.adts.values() for v in a["variants"] for f in v["fields"] if any("serde" in x for x in f.get("ast_attrs", [])))
+    ctx.floor("serde field attributes visible in the expanded AST (positive control: BigArray on histogram arrays)", seen, 14)
+    R.r_no_interior_mutability(ctx, db)
+    # nested state reachable from the listed structs must itself be listed
+    for t in SERDE_TYPES:
+        a = db.adts.get(t)
+        if not a:
+            continue
+        for f in a["variants"][0]["fields"]:
+            ty = f["ty"]
+            while ty["k"] == "array":
+                ty = ty["elem"]
+            if ty["k"] == "adt":
+                ctx.ob("R-SERDE", "nested-state-covered", t, "-", ty["path"] in SERDE_TYPES, "field %s has state type %s" % (f["name"], ty["path"]), nontrivial=False)
+
+
 PROPS = {
+    "C18": {"run": c18, "level": "other", "explanation": "serde structure"},
+    "C19": {"run": c19, "level": "other", "explanation": "rayon wiring"},
+    "C20": {"run": c20, "level": "proof", "explanation": "ingestion"},
+    "C14": {"run": c14, "level": "proof", "explanation": "minmax"},
     "C06": {"run": c06, "level": "other", "explanation": "find/add"},
     "C12": {"run": c12, "level": "other", "explanation": "construction"},
     "C13": {"run": c13, "level": "proof", "explanation": "merge/views"},
